@@ -14,7 +14,7 @@ PY_VOCAB = (
     + ["x", "y", "1", "1.5", "'s'", '"t"', "b'b'", "\n", "\n    ", "    ", " ", "#c\n", "\\\n", "'", '"', "'''", "f'", "f'{", "}"]
 )
 XONSH_VOCAB = ["$", "$X", "${", "$(", "$[", "!(", "![", "@(", "@$(", "?", "??", "!", "`", "`a`", "&&", "||", ">&", "p'a'", "pf'", "with!", "!(a", "g`", "@x`"]
-NASTY = ["€", "\\", "\r", "\x00", "\x0c", "\t", "\ufeff", "é", "\u2028", "󠄀", "·", "\x1b"]
+NASTY = ["€", "\\", "\r", "\x00", "\x0c", "\t", "\ufeff", "é", "\u2028", "󠄀", "·", "\x1b", "\xa0", "\x0b", "\u3000", "\xa0\n", " \x0b \n", ")", "]", "}\n"]
 
 
 def lex(text: str) -> list[str]:
